@@ -847,7 +847,12 @@ def ximpl(prop, tier, seed, t0):
     return responder_check(prop, tier, seed, t0, {"XIMPL", "SNAP"}, scs, mc=[MC_IMPL], extra_cov=cov)
 
 
-REGISTRY = {"XIMPL": ximpl, "XEMB": xemb, "XGLUE": xglue, "XENUM": xenum, "C17": c17, "C11": c11, "C12": c12, "C13": c13, "C14": c14, "C15": c15, "C16": c16, "C01": c01, "C02": c02, "C03": c03, "C04": c04, "C05": c05, "C06": c06, "C07": c07, "C08": c08, "C09": c09, "C10": c10, "C18": c18, "C19": c19}
+def xtlv(prop, tier, seed, t0):
+    """extension: the property writers of lltdTlvOps.c that no Hello uses"""
+    return responder_check(prop, tier, seed, t0, {"XTLV"}, campaigns.campaign_xtlv(seed, tier))
+
+
+REGISTRY = {"XTLV": xtlv, "XIMPL": ximpl, "XEMB": xemb, "XGLUE": xglue, "XENUM": xenum, "C17": c17, "C11": c11, "C12": c12, "C13": c13, "C14": c14, "C15": c15, "C16": c16, "C01": c01, "C02": c02, "C03": c03, "C04": c04, "C05": c05, "C06": c06, "C07": c07, "C08": c08, "C09": c09, "C10": c10, "C18": c18, "C19": c19}
 
 
 # =========================================================================== replay
